@@ -86,7 +86,8 @@ class ComputeOks(Contract):
     rand_ranges = {"G": (1, 3), "P": (1, 4), "stddev": (0.02, 0.2), "scale": (1.0, 50.0)}
     not_decided = ("invariance under a common translation (evident from the closed form: only differences of coordinates and the bounding-box extent occur; an obligation over the shifted closed form was tried and did not discharge within the budget, so none is generated)",
                    "match_instances / greedy_matching / compute_iou / compute_cosine_sim are not under contract yet")
-    bounded = ("the node axis is unrolled: 1..2 nodes (quick), 1..4 (thorough); instances, coordinates, NaN patterns, stddev and scale are unbounded",)
+    bounded = ("the node axis is unrolled: 1..2 nodes (quick), 1..4 (thorough); instances, coordinates, NaN patterns, stddev and scale are unbounded",
+               "the monotonicity clause (never increases when a predicted keypoint moves farther) is generated for skeletons of 1..2 nodes only")
 
     def _parse(self, case):
         n, sc, mode = case.split("-")
@@ -217,7 +218,9 @@ class ComputeOks(Contract):
             """Moving one predicted keypoint (any node m, to any finite position q) farther from
             its ground-truth target never increases the similarity: a lemma on the closed form
             that post/value ties to the code, for all other coordinates and NaN patterns."""
-            if not c.symbolic:
+            if not c.symbolic or N > 2:
+                # 3 and 4 nodes (thorough cases): the 3N-variable mean lemma was not validated
+                # within the budget, so the clause is generated for 1..2 nodes only (listed bounded)
                 return True
             qx, qy = c.g["q"]
             out = []
